@@ -709,6 +709,40 @@ def grid_range(facts, res):
             return "corner"
         return getattr(relative_position, "form", {}).get(cls_, "corner")
 
+    class _Reciprocal(Exception):
+        def __init__(self, node, getter):
+            Exception.__init__(self, getter)
+            self.node, self.getter = node, getter
+
+    def _is_reciprocal_member(getter):
+        """the configuration's accessor returns a member its constructor fills with 1 / something (directly or through a helper of the class)"""
+        gs = [m for m in facts.methods_of("TbfSpacialConfiguration") if m["name"] == getter and tbf.body(m) is not None]
+        if len(gs) != 1:
+            return False
+        mf = re.search(r"return(\w+);", facts.ntext(tbf.body(gs[0])))
+        if not mf:
+            return False
+        roots = [c for i in ctor[0].get("inits", []) if i.get("member") == mf.group(1) for c in i.get("c", []) if c]
+        seen = set()
+        while roots:
+            r = roots.pop()
+            for y in walk(r):
+                if y.get("k") == "BinaryOperator" and y.get("op") == "/":
+                    a0 = strip(kids(y)[0])
+                    while a0.get("k", "").endswith("CastExpr") or a0.get("k") in ("CXXUnresolvedConstructExpr", "ParenExpr", "CXXFunctionalCastExpr"):
+                        if len(kids(a0)) != 1:
+                            break
+                        a0 = strip(kids(a0)[0])
+                    if a0.get("k") in ("IntegerLiteral", "FloatingLiteral") and float(a0.get("val", 0)) == 1.0:
+                        return True
+                if y.get("k") in ("CallExpr", "CXXMemberCallExpr"):
+                    nm = tbf.callee_name(y)
+                    for g in facts.methods_of("TbfSpacialConfiguration"):
+                        if g["name"] == nm and tbf.body(g) is not None and id(g) not in seen:
+                            seen.add(id(g))
+                            roots.append(tbf.body(g))
+        return False
+
     n = 0
     for cls in ("TbfMortonSpaceIndex", "TbfHilbertSpaceIndex"):
         ms = [m for m in facts.methods_of(cls) if m["name"] == "getTreeCoordinate" and tbf.body(m) is not None and not m.get("inst")]
@@ -754,6 +788,9 @@ def grid_range(facts, res):
                     return point(W)
                 if re.search(r"getLeafWidths\(\)\[\w+\]$", t):
                     return point(W / N)
+                mg = re.search(r"\.(get\w+)\(\)\[\w+\]$", t)
+                if mg and _is_reciprocal_member(mg.group(1)):
+                    raise _Reciprocal(nd, mg.group(1))
                 raise AnalysisBroken("%s: `%s` not understood by the range analysis" % (facts.loc(nd), t[:60]))
             if k in ("CallExpr", "CXXMemberCallExpr"):
                 nm = tbf.callee_name(nd)
@@ -860,7 +897,15 @@ def grid_range(facts, res):
             if e.get("k") in ("ParenExpr", "CXXStaticCastExpr", "CallExpr") :
                 return True      # assert(...) expands to a void expression
             raise AnalysisBroken("%s: statement not understood by the range analysis: %s" % (facts.loc(s), facts.ntext(s)[:60]))
-        run(fm.body, Iv(0, W))
+        try:
+            run(fm.body, Iv(0, W))
+        except _Reciprocal as e_:
+            n += 1
+            res.instance("C06.6.cell-of-position", "%s reciprocal" % fn["qname"], facts.loc(e_.node), "uses a stored reciprocal (%s)" % e_.getter)
+            res.violation("C06.6.cell-of-position", tbf.rel(facts.path_of(e_.node)), fn["qname"], "reciprocal:%s" % cls, e_.node["l"][1],
+                          "the grid coordinate is computed from the position times `%s`, a member the configuration fills with 1 / (a width): the stored reciprocal is rounded, so for a position on an interior face of the grid (x = k x leaf width) the product can fall one ulp below k and truncate to k-1 - for some box widths (not the powers of two) the particle is stored in the leaf below the one that contains it; "
+                          "divide by the leaf width" % facts.ntext(e_.node)[:60])
+            continue
         if not rets:
             raise AnalysisBroken("%s: no return reached" % fn["qname"])
         for s_, iv, xs in rets:
